@@ -143,8 +143,13 @@ def c09():
     zz = lambda src, out, res, how: dict(z(res), bases=[{"file": src, "path": "/"}], file=out, res_object=how)
     shared = [[b2, b4, zz("f1", "f2", [8, 16], "keep"), zz("f3", "f4", [8, 16], "reuse")],
               [b2, b4, zz("f3", "f4", [12, 24], "keep"), zz("f1", "f2", [12, 24], "reuse")]]
+    # two bases that are not nested (widths 4 and 6): 10 is a multiple of their common divisor and of
+    # neither base - not derivable, the request must be refused (12 and 8 alone are fine)
+    w6 = lay(["c1", "c2"], [[0, 6, 12], [0, 6]])
+    b6 = create("f5", "/", w6, [(0, 0, 3), (0, 1, 4), (1, 2, 1), (2, 2, 6)])
+    two = lambda res: dict(z(res), bases=[{"file": "f3", "path": "/"}, {"file": "f5", "path": "/"}], file="f2")
     return [[anc, z([2, 3, 6])], [anc, z([6, 3, 2, 1], 3)], [anc, z([4, 12, 2], 2)], [anc, z([2, 5, 7])],
-            [lsrc, lz(1), lz(2, True)]] + shared
+            [lsrc, lz(1), lz(2, True)]] + shared + [[b4, b6, two([12, 10, 8])], [b4, b6, two([12, 8, 24])]]
 
 
 def c15():
